@@ -407,7 +407,9 @@ RULE = ("gcd pairs from {0/0, one zero, equal, common factor x cofactor size cla
         "bits of the top word, as g*u, g*v with known g, near-equal and word-shifted pairs} x {UBig, IBig, mixed} x {gcd, gcd_ext}; radicands {0,1,perfect powers, perfect powers +-1, every (word count, "
         "leading-zero count) class of sqrt_rem_large incl. shift = 64 and > 64} x n in {0..10, 16, 63..65, 127..129, 1000, bit length +-1}; "
         "ilog over bases {2, 2^k, 10, word, dword, multi-word} x {0, 1, base^e, base^e +-1, random}; remove with known multiplicity; "
-        "log2_bounds of UBig/IBig/FBig<2>/DBig/RBig/Relaxed/u8..u128 incl. values next to 1 and exact powers of two; primitives: "
+        "log2_bounds of UBig/IBig/FBig<2>/DBig/RBig/Relaxed/u8..u128 incl. values next to 1 and exact powers of two, f32/f64 by bit pattern "
+        "(specials, subnormals, sampled/all exponents x boundary mantissas); the same through a harness built WITHOUT the std feature "
+        "(table estimator: all u8, u16 blocks, u32..u128 with top-16-bit boundary patterns, UBig, f32/f64); primitives: "
         "exhaustive u8 (sqrt, cbrt, log2 bounds, gcd rows) and u16 (all in thorough, sampled blocks in quick), boundary + random above. "
         "Non-trivial := an operand above two words or a primitive sweep; distinct := distinct (op,args) lines.")
 EXPLANATION = ("Lean theorems: gcd dispatch = Nat.gcd with the GcdZeroZero panic; Bezout identity of gcd_ext through word/dword recovery and the "
@@ -416,6 +418,7 @@ EXPLANATION = ("Lean theorems: gcd dispatch = Nat.gcd with the GcdZeroZero panic
                "exact; ilog correction loops end at floor(log) for any admissible first guess; remove returns the exact multiplicity. "
                "log2_bounds enclosure is decided exactly per call by certified interval squaring / exact powering in the driver.")
 ASSUMPTIONS = ["mul/div/pow of UBig used inside nth_root, ilog and remove are exact (C01, C02)",
+               "(a | b).trailing_zeros() == min(a.trailing_zeros(), b.trailing_zeros()) for non-zero a, b (used when mirroring the primitive gcd)",
                "Lehmer multi-word kernels and Zimmermann square root meet their contracts (correspondence-checked, not proved)"]
 LEVEL_TEXT = ("Machine-checked Lean 4 theorems over an executable model of gcd/gcd_ext dispatch and Bezout recovery, the Lehmer cofactor "
               "step, the Newton nth-root iteration, sqrt_rem_large (de)normalisation, the ilog correction loops and remove; the "
@@ -424,8 +427,10 @@ LEVEL_TEXT = ("Machine-checked Lean 4 theorems over an executable model of gcd/g
               "boundaries, quotient overflow, exhaustive u8/u16); log2 bounds are replayed bit-exactly and their enclosure of the true "
               "logarithm is decided with exact integer arithmetic on every call.")
 LEVEL_NOTE = ("Trusted: Lean kernel; axioms propext/Classical.choice/Quot.sound; correspondence harness + generators (sampling); frontier "
-              "kernels listed in evidence are specified, not verified; the f32 log2 estimator is not the subject of a theorem — its "
-              "bounds are checked exactly per sampled input (std build only; the no_std table estimator has a table theorem).")
+              "kernels listed in evidence are specified, not verified; the libm-based f32 log2 estimator (std build) is not the subject of "
+              "a theorem — its bounds are replayed bit-exactly and their enclosure is decided exactly per sampled input; the no_std table "
+              "estimator has integer-level enclosure theorems (all u16, u8 powering, wide-integer lifting) and is run through a harness "
+              "built without the std feature; f32 rounding of the estimators is executed, not proved.")
 TECHNIQUE = "Lean 4 refinement/termination proofs (fuel + bound theorems) + differential correspondence + exact per-call enclosure checks"
 THEOREMS = ["Dashu.Props.C12." + t for t in ["gcd_prim_spec", "gcd_spec", "gcd_ext_prim_spec", "gcd_ext_bezout", "gcd_ext_bezout_driver", "lehmer_guess_det",
             "lehmer_step_preserves_gcd", "sqrt_rem_spec", "nth_root_spec", "cbrt_rem_spec", "ibig_root_spec", "ilog_spec", "remove_spec",
